@@ -63,6 +63,24 @@ func report(rep *core.Reporter, res *Result) {
 	}
 }
 
+// newViolations counts the violations that are not listed known findings.
+func newViolations(rep *core.Reporter, res *Result) int {
+	n := 0
+	for _, v := range res.Violations {
+		if !rep.IsKnown(core.Signature(v.Sig)) {
+			n++
+		}
+	}
+	return n
+}
+
+func probeText(h string) string {
+	if h == "" {
+		return "skipped: a violation was already established (shared mutable state makes results depend on earlier runs)"
+	}
+	return "same seed re-run with 14 shards/GOMAXPROCS=4 and 5 shards/GOMAXPROCS=1: all counters identical, hash " + h
+}
+
 func statsSubset(stats map[string]int64, prefix string) map[string]int64 {
 	out := map[string]int64{}
 	for k, v := range stats {
@@ -96,7 +114,7 @@ func CheckC09(tier string, seed uint64, rep *core.Reporter) (*core.Evidence, err
 			return nil, err
 		}
 		res, err := w.RunShards(w.Runsim, "c09", bseed, runs, 14, nil, nil, 40*time.Minute)
-		if err == nil && b == 0 && len(res.Violations) == 0 {
+		if err == nil && b == 0 && newViolations(rep, res) == 0 {
 			detHash, err = w.DeterminismProbe(w.Runsim, "c09", bseed, 200, nil)
 		}
 		rejected += w.Rejected
@@ -161,7 +179,7 @@ func CheckC09(tier string, seed uint64, rep *core.Reporter) (*core.Evidence, err
 			"components_simulated":    []string{"token stream at _Lexer.ReadToken (stub lexer = fault injector)", "byte stream into simplelexer (configuration b)", "liveness budget in P4 ticks"},
 			"components_stubbed":      []string{"the lexer in configuration a (stub implementing _Lexer)"},
 			"reference_models":        []string{"Earley recogniser over the grammar expanded from the spec model (@error as terminal ERROR)", "the same grammar without @error productions"},
-			"determinism_probe":      "same seed re-run with 14 shards/GOMAXPROCS=4 and 5 shards/GOMAXPROCS=1: all counters identical, hash " + detHash,
+			"determinism_probe":      probeText(detHash),
 			"stats_hash":             total.StatsHash(),
 			"known_findings_hit":      rep.KnownHits,
 		},
